@@ -110,6 +110,9 @@ def run(prop_id, cs, Cm):
     lines = list(dict.fromkeys(l for l, _ in cs))
     outs = Cm.run_lines(binary, lines, shards=8)
     again = [i for i, o in enumerate(outs) if flaky(o) or not o.startswith("same")]
+    # (each case that does not answer costs the full time limit again: at most six of those are taken a second time)
+    hung = [i for i in again if "HANG" in outs[i]]
+    again = [i for i in again if i not in set(hung[6:])][:60]
     if again:      # whatever is not "same" is taken once more, two at a time, with a longer limit (a loaded machine, a port race); what persists is judged
         for i, o in zip(again, Cm.run_lines(binary, [lines[i] for i in again], shards=2, env=dict(Cm.ENV, VERIF_NET_WATCHDOG="60"))):
             outs[i] = o
